@@ -405,3 +405,52 @@ class NotifierEqualsBody(Contract):
 
     def covers(self, cx, ov, info):
         return [("answers", lambda k, p, s: k == "return")]
+
+
+@register
+class ObserverNotifierEqualsBody(NotifierEqualsBody):
+    """ObserverChangeNotifier.equals(other) -- the body behind _OEquals: two maintainers stand for the same registration exactly
+    when they are of the same class, share THE SAME observer_handler function object, have equal graphs, equal user handlers,
+    equal dispatchers and the IDENTICAL target object."""
+    path = OPATH
+    qualname = "ObserverChangeNotifier.equals"
+    properties = ("C09", "C08")
+    class_paths = (OPATH,)
+
+    def configure(self, cx, I, ov):
+        NotifierEqualsBody.configure(self, cx, I, ov)
+        self.oh1, self.oh2, self.g1, self.g2 = z3.Consts("my_observer_handler other_observer_handler my_graph other_graph", Val)
+        other_type = VElem(z3.Const("some_other_type", Val))
+
+        def type_(I2, a, kw, st, k):
+            v = a[0]
+            if isinstance(v, VRef) and st.heap[v.oid].cls == "ObserverChangeNotifier":
+                return k(cx.const("TraitEventNotifier-class"), st)
+            return k(other_type, st)
+        cx.module_globals["type"] = VFunc("opaque", name="type", apply=type_)
+
+    def setup(self, cx, I, ov):
+        st, args, kw, info = NotifierEqualsBody.setup(self, cx, I, ov)
+        me, arg = args
+        other = None
+        for oid, h in st.heap.items():
+            if getattr(h, "cls", None) == "TraitEventNotifier":
+                extra = {"observer_handler": VElem(self.oh1 if oid == me.oid else self.oh2), "graph": VElem(self.g1 if oid == me.oid else self.g2)}
+                st = st.put(oid, HObj("obj", None, "ObserverChangeNotifier", {**h.fields, **extra}))
+        return st, args, kw, info
+
+    def post(self, cx, I, ov, info, kind, payload, st):
+        if kind == "raise":
+            return [("exc-free", z3.BoolVal(False), dict(exception="%s %r" % (payload.cname or payload.sym, payload.origin)))]
+        r = payload.t if isinstance(payload, VBool) else None
+        if r is None:
+            return [("post:returns-a-boolean", z3.BoolVal(False))]
+        if ov == "itself":
+            return [("post:a-notifier-equals-itself", r)]
+        if ov == "not-a-notifier":
+            return [("post:an-object-of-another-class-is-never-equivalent", z3.Not(r))]
+        NONE_T = cx.const("None").t
+        ta = z3.If(self.alive1, self.t1, NONE_T)
+        tb = z3.If(self.alive2, self.t2, NONE_T)
+        return [("post:equivalent-iff-same-observer_handler-equal-graphs-handlers-dispatchers-and-the-IDENTICAL-target-object",
+                 r == z3.And(self.oh1 == self.oh2, self.eqv(self.g1, self.g2), self.eqv(self.h1, self.h2), ta == tb, self.eqv(self.d1, self.d2)))]
